@@ -77,6 +77,7 @@ def shards(tier):
                 out.append(dict(fam="B", align=al, nv=3, first=[k0, p0]))
     for k in range(8):
         out.append(dict(fam="C", big=8, k=k, K=8))
+    out.append(dict(fam="H"))
     return out
 
 
@@ -118,6 +119,20 @@ def snapshot(vr, machine, constraints, pl):
 def judge(case, acc):
     from rig.place_and_route.allocate.greedy import allocate
     from rig.place_and_route.exceptions import InsufficientResourceError
+    def viol(sig, *a_, **k_):
+        # a verdict that depends on calls made before is marked so (it is
+        # kept apart from the same kind of verdict on a single call)
+        if case.get("history"):
+            sig = dict(sig, history=True)
+        acc.violation(sig, *a_, **k_)
+    for earlier in case.get("history", []):
+        # calls made before in the same process (their outcome is judged
+        # when they are the case themselves)
+        try:
+            a_ = build(earlier)
+            allocate(a_[0], [], a_[1], a_[2], a_[3])
+        except Exception:
+            pass
     vr, machine, constraints, pl = build(case)
     before = snapshot(vr, machine, constraints, pl)
     acc.evaluations += 1
@@ -127,12 +142,12 @@ def judge(case, acc):
     except InsufficientResourceError as e:
         res, exc = None, e
     except Exception as e:   # any other exception is a violation
-        acc.violation(dict(kind="wrong_exception", exc=type(e).__name__), case,
+        viol(dict(kind="wrong_exception", exc=type(e).__name__), case,
                       "allocate raised %s: %s" % (type(e).__name__, e),
                       size=case_size(case))
         return
     if snapshot(vr, machine, constraints, pl) != before:
-        acc.violation(dict(kind="arguments_modified"), case,
+        viol(dict(kind="arguments_modified"), case,
                       "allocate modified its arguments", size=case_size(case))
     caps = dict(case["caps"])
     exc_caps = {tuple(xy): dict(r) for xy, r in case["exceptions"]}
@@ -170,7 +185,7 @@ def judge(case, acc):
                 if feasible is None:
                     break
             if feasible:
-                acc.violation(
+                viol(
                     dict(kind="feasible_rejected"), case,
                     "allocate raised InsufficientResourceError (%s) although "
                     "there is no alignment, reservations leave one contiguous "
@@ -181,7 +196,7 @@ def judge(case, acc):
     # ---- success: check the statement clause by clause
     names = [v[0] for v in case["vertices"]]
     if set(res) != set(names):
-        acc.violation(dict(kind="vertex_set"), case,
+        viol(dict(kind="vertex_set"), case,
                       "allocation has vertices %r, expected %r"
                       % (sorted(res), sorted(names)), size=case_size(case))
         return
@@ -190,7 +205,7 @@ def judge(case, acc):
         xy = tuple(xy)
         needs = dict(needs)
         if set(res[name]) != set(needs):
-            acc.violation(dict(kind="resource_set"), case,
+            viol(dict(kind="resource_set"), case,
                           "vertex %r got resources %r, needs %r"
                           % (name, sorted(map(str, res[name])), sorted(needs)),
                           size=case_size(case))
@@ -219,7 +234,7 @@ def judge(case, acc):
                         kind, msg = "overlaps_vertex", \
                             "overlaps vertex %r's [%d,%d)" % (o, oa, ob)
             if kind:
-                acc.violation(dict(kind=kind), case,
+                viol(dict(kind=kind), case,
                               "vertex %r on %r resource %s got %r: %s"
                               % (name, xy, r, s, msg), size=case_size(case))
                 return
@@ -352,7 +367,41 @@ def run_C(params, tier, acc):
     acc.sample(dict(family="C", big=big, layouts=len(layouts)))
 
 
+def run_H(params, tier, acc):
+    """Two calls in one process: constraints (alignment, reservations) and
+    machines of the first call must leave no trace in the second."""
+    base = dict(w=1, caps=[["R", 8]], exceptions=[])
+    firsts = []
+    for al in (2, 3, 4, 8):
+        firsts.append(dict(base, reservations=[], alignments=[["R", al]],
+                           vertices=[["a", [["R", 1]], [0, 0]],
+                                     ["b", [["R", 1]], [0, 0]]]))
+    firsts.append(dict(base, reservations=[["R", [2, 6], None]],
+                       alignments=[], vertices=[["a", [["R", 1]], [0, 0]]]))
+    firsts.append(dict(base, reservations=[["R", [0, 7], [0, 0]]],
+                       alignments=[["R", 4]],
+                       vertices=[["a", [["R", 5]], [0, 0]]]))   # fails
+    seconds = []
+    for needs in ((3, 5), (1, 1, 1, 5), (8,), (1, 2, 5), (7, 1)):
+        seconds.append(dict(base, reservations=[], alignments=[],
+                            vertices=[["v%d" % i, [["R", n]], [0, 0]]
+                                      for i, n in enumerate(needs)]))
+    seconds.append(dict(base, reservations=[["R", [0, 1], None]],
+                        alignments=[["R", 2]],
+                        vertices=[["x", [["R", 2]], [0, 0]],
+                                  ["y", [["R", 3]], [0, 0]]]))
+    for f in firsts + seconds:
+        for g in seconds + firsts:
+            acc.nontrivial += 1
+            judge(dict(g, history=[f]), acc)
+            judge(dict(g, history=[f, f]), acc)
+    acc.sample(dict(family="H", firsts=len(firsts), seconds=len(seconds)))
+
+
 def run_shard(params, tier, acc):
+    if params["fam"] == "H":
+        run_H(params, tier, acc)
+        return
     if params["fam"] == "A":
         run_A(params, tier, acc)
     elif params["fam"] == "C":
